@@ -16,6 +16,7 @@ __all__ = [
     'FixSessionId',
     'OnFixMsgCoro',
     'FixSession',
+    'Fix42Session',
     'Fix44Session',
     'Fix50Session',
 ]
@@ -119,6 +120,12 @@ class FixSession(common.AsyncSession):
         checksum = str(reduce(add, data) % 256).rjust(3, '0')
         data.extend(core.Field.from_tag_value(core.CHECKSUM_FIELD, checksum).to_bytes()[1] + core.SOH)
         return data
+
+
+@attrs.define(auto_attribs=True)
+class Fix42Session(FixSession):
+    def begin_string(self):
+        return 'FIX.4.2'
 
 
 @attrs.define(auto_attribs=True)
